@@ -16,8 +16,8 @@ CONSTANTS GConfigs,                         \* set of cfg records (compiled conf
           GEnc,                             \* BOOLEAN: encryption changes are inputs in every state; FALSE: only during key
                                             \*   distribution (items pending, or encryption on), where they are always inputs
           GDepthOf(_),                      \* cfg -> maximal number of inputs up to the first completed exchange
-          GSegs, GDepth2Of(_),              \* several exchanges on one connection: after each of the first GSegs completions
-                                            \*   (a step into phase "completed") at least GDepth2Of(cfg) further inputs are allowed, so that
+          GSegs, GDepth2Of(_)               \* several exchanges on one connection: after each of the first GSegs completions
+                                            \*   (a step into phase "completed") GDepth2Of(cfg) further inputs are allowed (0: bound not extended), so that
                                             \*   complete -> new request -> complete / fail / abort with another method is
                                             \*   inside the bound; `last` in the view keeps these histories apart
 VARIABLES hist, left, nseg                  \* left: inputs still allowed; nseg: completions that extended the bound
@@ -48,7 +48,11 @@ AlgsFor(r) ==
 GNext ==
     /\ left > 0
     /\ \/ \E r \in GReqsOf(cfg) : \E o \in {"response", "failed"}, a \in AlgsFor(r) :
-             Req(RecOf(r), o, RAuth, a) /\ Do(<<"req", r[1], r[2], r[3], r[4], r[5], r[6]>>)
+             \* last field 1: the model accepted a new request right after a completed exchange. The property leaves open
+             \* whether that request is accepted or answered with Pairing Failed (back to idle) and accepted when repeated;
+             \* both end in the same model state, so the replayed central repeats such a request once when it is refused
+             \* (script flag, harness/sm) - otherwise an implementation that refuses would never get into a second exchange
+             Req(RecOf(r), o, RAuth, a) /\ Do(<<"req", r[1], r[2], r[3], r[4], r[5], r[6], B(phase = "completed" /\ o = "response")>>)
        \/ \E p \in GPdus, o \in Outs :
              Pdu(p[1], p[2], p[3], o, alg = "numeric_comparison") /\ Do(<<"pdu", p[1], p[2], p[3]>>)
        \/ \E o \in Outs : Poll(o) /\ Do(<<"poll">>)
@@ -57,8 +61,8 @@ GNext ==
        \* distribute the link layer may switch encryption on / off between any two inputs (polls in particular)
        \/ \E b \in BOOLEAN : (GEnc \/ budget # {} \/ enc) /\ b # enc /\ Enc(b) /\ Do(<<"enc", B(b)>>)
        \/ \E w \in GFinds : Find(w, FALSE, "none", -1, FALSE) /\ Do(<<"find", w>>)
-    /\ IF phase' = "completed" /\ phase # "completed" /\ nseg < GSegs
-       THEN left' = (IF GDepth2Of(cfg) > left - 1 THEN GDepth2Of(cfg) ELSE left - 1) /\ nseg' = nseg + 1
+    /\ IF phase' = "completed" /\ phase # "completed" /\ nseg < GSegs /\ GDepth2Of(cfg) > 0
+       THEN left' = GDepth2Of(cfg) /\ nseg' = nseg + 1
        ELSE left' = left - 1 /\ nseg' = nseg
 
 GSpec == GInit /\ [][GNext]_gvars
